@@ -1,7 +1,13 @@
 package s3api
 
 import (
+	"encoding/json"
+
+	"github.com/gofiber/fiber/v2"
+	"github.com/versity/versitygw/auth"
 	"github.com/versity/versitygw/internal/zzvf"
+	"github.com/versity/versitygw/internal/zzvfbe"
+	"github.com/versity/versitygw/s3api/middlewares"
 )
 
 // mutating backend methods: with the read-only switch on, none may be reached
@@ -31,4 +37,54 @@ func VfReadonly() {
 			zzvf.Fail("no-mutation-in-readonly-mode")
 		}
 	}
+}
+
+// VfReadonlyReads: C15, second half – "read requests keep working": with the read-only switch on, the plain read requests
+// (GetObject, HeadObject, ListObjects, ListObjectsV2, HeadBucket) of a caller who has access are passed to the backend and
+// answered with success when the backend succeeds. The ACL middleware and handlers are those the real server constructor
+// installs with the read-only option.
+func VfReadonlyReads() {
+	zzvf.Bound("havoc_str", 1)
+	zzvf.Bound("havoc_str_fixed", 1)
+	zzvf.Bound("havoc_slice", 1)
+	type read struct {
+		name, method, pattern, path, backend string
+		v2                                   bool
+	}
+	reads := []read{
+		{"GetObject", "GET", "/:bucket/:key/*", "/bkt/k", "GetObject", false},
+		{"HeadObject", "HEAD", "/:bucket/:key/*", "/bkt/k", "HeadObject", false},
+		{"ListObjects", "GET", "/:bucket", "/bkt", "ListObjects", false},
+		{"ListObjectsV2", "GET", "/:bucket", "/bkt", "ListObjectsV2", true},
+		{"HeadBucket", "HEAD", "/:bucket", "/bkt", "HeadBucket", false},
+	}
+	rd := reads[zzvf.Choice("read_request", len(reads))]
+	zzvf.Trace("route=" + rd.name)
+	be := &zzvfbe.Recorder{}
+	zzvfbe.NoFail = map[string]bool{"GetObject": true, "HeadObject": true, "ListObjects": true, "ListObjectsV2": true, "HeadBucket": true,
+		"GetBucketAcl": true, "GetBucketPolicy": true, "GetObjectLockConfiguration": true}
+	aclBytes, _ := json.Marshal(auth.ACL{Owner: "root"})
+	zzvfbe.Hooks["GetBucketAcl"] = func(rec *zzvfbe.Recorder, args []any) (any, error) { return aclBytes, nil }
+	ctx := vfRootRequest(rd.method, rd.path)
+	if rd.v2 {
+		zzvfbe.R.SetQuery("list-type", "2")
+	}
+	zzvfbe.Routes = nil
+	_, nerr := New(new(fiber.App), be, middlewares.RootUserConfig{Access: "root", Secret: "rootsec"}, "7070", "us-east-1", nil, nil, nil, nil, nil, WithQuiet(), WithReadOnly())
+	zzvf.Assert(nerr == nil, "server-constructed")
+	chain := zzvfbe.ChainTail(rd.method, rd.pattern, 1)
+	zzvf.Assert(len(chain) == 2, "route-is-registered-behind-the-acl-middleware")
+	if len(chain) != 2 {
+		return
+	}
+	_ = zzvfbe.RunChain(ctx, chain)
+	zzvf.Reach("answered")
+	called := false
+	for _, c := range be.Calls {
+		if c.Method == rd.backend {
+			called = true
+		}
+	}
+	zzvf.Assert(called, "read-request-reaches-the-backend-in-readonly-mode")
+	zzvf.Assert(zzvfbe.W.Status < 300, "read-request-succeeds-in-readonly-mode")
 }
